@@ -10,7 +10,7 @@ from pwv.props.c12 import LAYOUTS, canon, is_placeholder
 ID = 'C06'
 RULE = ('Hypothesis draws (direction forward/inverse, filter pair, J in 1..3, H,W in 2..14 incl. odd / non-multiple-of-4, '
         '(o_dim, ri_dim) from all 132 integer pairs, skip_hps mask and include_scale mask (forward), absence mask and the '
-        'subset of {lowpass, level 1..J} that requires grad (inverse), cotangent recipes). Oracle: the matrix J_f of the '
+        'subset of {lowpass, level 1..J} that requires grad (inverse), cotangent recipes; for a quarter of the cases the filters of the module are overwritten in place between the forward pass and a pull-back through the recorded graph, which must be refused or unchanged). Oracle: the matrix J_f of the '
         'function computed by the forward pass, extracted from basis inputs under no_grad; torch.autograd.grad with basis '
         'cotangents (batch-slot trick: K copies of the input in the batch axis, cotangent k in slot k) must give J_f^T, for '
         'every input in the subset (never None); two unbatched N=1 VJPs with dense cotangents cross-check the batching. '
@@ -49,7 +49,7 @@ def _case(draw, unit):
     case = {'direction': direction, 'biort': b, 'qshift': q, 'J': J,
             'size': [draw(st.integers(2, 14)), draw(st.integers(2, 14))],
             'o_dim': o, 'ri_dim': ri, 'mode': draw(st.sampled_from(['symmetric', 'symmetric', 'zero'])),
-            'reused': draw(st.integers(0, 2)) == 0,
+            'reused': draw(st.integers(0, 2)) == 0, 'overwrite': draw(st.integers(0, 3)) == 0,
             'rx': draw(core.recipe_strategy()), 'rg': draw(core.recipe_strategy(kinds=core.RECIPE_KINDS + ['contrast'])),
             'k': draw(st.integers(0, 10**6))}
     if direction == 'forward':
@@ -196,6 +196,11 @@ def _forward(case, r, nondefault):
     okc, err = core.close(G1.numpy().reshape(-1), want1, tol1)
     if not okc:
         r.fail('forward_vjp_unbatched', 'N=1 backward is not J^T g: ' + core.first_mismatch(G1.numpy().reshape(-1), want1, tol1))
+    if case.get('overwrite') and not r.failed:
+        # the filters are overwritten in place between the forward pass and a pull-back through its recorded graph
+        x2 = torch.tensor(x0, requires_grad=True)
+        F2 = _flat(_outs(core.libcall(fwd, x2), skip, scl, case['o_dim'], case['ri_dim']))
+        dwtu.backward_after_overwrite(r, fwd, [F2], [x2], [torch.tensor(gv)], 'DTCWTForward', pick=case['k'])
     return r
 
 
@@ -323,6 +328,10 @@ def _inverse(case, r, nondefault):
         if not okc:
             r.fail('inverse_vjp_unbatched', 'N=1 gradient of %s is not S^T g: %s' % (
                 k, core.first_mismatch(gk.numpy().reshape(-1), want, tol1)))
+    if case.get('overwrite') and not r.failed:
+        low, highs, ts = build(p0, sub)
+        y = core.libcall(inv, (low, highs))
+        dwtu.backward_after_overwrite(r, inv, [y.reshape(1, -1)], [ts[k] for k in sub], [torch.tensor(gv)], 'DTCWTInverse', pick=case['k'])
     return r
 
 
